@@ -9,13 +9,14 @@ can never build).  `isPrint` is `strconv.IsPrint`.
 
 Strings are `List Char`, i.e. valid UTF-8: everything the lexer produces is (see `Lex`), so the
 `\xNN` branch of `strconv.Quote` for undecodable bytes is not reachable from parsed paths and is
-not modelled.
+not modelled.  Strings are written by `ast.quote`: `strconv.Quote` with `\a` and `\U…` rewritten
+to `\u0007` and `\u{…}`.
 -/
 
 namespace Sqljson
 namespace Print
 
-/-! ## `strconv.Quote` -/
+/-! ## `ast.quote` -/
 
 def lowerHex (n : Nat) : Char :=
   if n < 10 then Char.ofNat (48 + n) else Char.ofNat (87 + n)
@@ -25,20 +26,28 @@ def hexDigits : Nat → Nat → List Char
   | 0, _ => []
   | k + 1, n => lowerHex (n / 16 ^ k % 16) :: hexDigits k n
 
-/-- `appendEscapedRune` with `quote = '"'`, `ASCIIonly = graphicOnly = false` -/
+/-- hex digits of an astral code point without leading zeros: `strings.TrimLeft(…, "0")` of the
+    eight digits `strconv.Quote` writes after `\U` (five or six remain for U+10000 … U+10FFFF) -/
+def hexTrim (n : Nat) : List Char :=
+  if n < 0x100000 then hexDigits 5 n else hexDigits 6 n
+
+/-- one rune of `ast.quote`: `appendEscapedRune` of `strconv.Quote` (`quote = '"'`,
+    `ASCIIonly = graphicOnly = false`) with the two rewrites of `ast.quote` applied — `\a` is
+    written `\u0007` and `\UXXXXXXXX` is written `\u{X…}` — so that every escape is one the
+    path lexer reads back. -/
 def escapeRune (isPrint : Char → Bool) (c : Char) : List Char :=
   if c = '"' || c = '\\' then ['\\', c]
   else if isPrint c then [c]
   else
     let n := c.toNat
-    if n = 7 then ['\\', 'a'] else if n = 8 then ['\\', 'b'] else if n = 12 then ['\\', 'f']
+    if n = 7 then '\\' :: 'u' :: hexDigits 4 n else if n = 8 then ['\\', 'b'] else if n = 12 then ['\\', 'f']
     else if n = 10 then ['\\', 'n'] else if n = 13 then ['\\', 'r'] else if n = 9 then ['\\', 't']
     else if n = 11 then ['\\', 'v']
     else if n < 32 || n = 127 then '\\' :: 'x' :: hexDigits 2 n
     else if n < 0x10000 then '\\' :: 'u' :: hexDigits 4 n
-    else '\\' :: 'U' :: hexDigits 8 n
+    else '\\' :: 'u' :: '{' :: (hexTrim n ++ ['}'])
 
-/-- `strconv.Quote` -/
+/-- `ast.quote` (the package's replacement for `strconv.Quote`) -/
 def quote (isPrint : Char → Bool) (s : List Char) : List Char :=
   '"' :: (s.flatMap (escapeRune isPrint) ++ ['"'])
 
